@@ -17,6 +17,7 @@ import re
 from typing import Any, Callable
 
 from harness.c10 import fill_record, show_tree
+from harness import clause_layer
 from harness.common import Check, err_enum
 from harness.gen_copybook import Node, Style, TreeGen, clause_text, preorder, render, spec_layout, wrap
 
@@ -52,7 +53,7 @@ class Spelling:
         self.indexed_by = ""                  # "" | "indexed" (no KEY, D27) | "key+indexed" | "indexed-before-pic" (D33)
         self.renumber: Callable[[int], int] = lambda n: n
         self.lower = ""                       # "" | "keywords" | "picture" (D20)
-        self.extra = ""                       # "" | value | just | just-last (D32) | blank | sync | 88
+        self.extra = ""                       # "" | value | just | just-last | blank | blank-zeros (D42) | sync | 88
         self.continuation = False             # D28
         self.expand_repeat = False
         self.trailing_newline = True
@@ -98,8 +99,9 @@ def entry_text(n: Node, sp: Spelling) -> str:
             clauses.append(("extra", f"{kw('VALUE')} {'ZERO' if (n.pic or '').upper().lstrip('S').startswith('9') else chr(39) + 'A. B' + chr(39)}"))
         elif sp.extra in ("just", "just-last") and (n.pic or "").upper().startswith("X"):
             clauses.append(("extra", f"{kw('JUSTIFIED')} {kw('RIGHT')}" if sp.extra == "just" else kw("JUST")))
-        elif sp.extra == "blank" and (n.pic or "").upper().lstrip("S").startswith("9") and not usage:
-            clauses.append(("extra", f"{kw('BLANK')} {kw('WHEN')} {kw('ZERO')}"))
+        elif sp.extra in ("blank", "blank-zeros") and (n.pic or "").upper().lstrip("S").startswith("9") and not usage:
+            zero = "ZERO" if sp.extra == "blank" else ("ZEROS", "ZEROES")[n.level % 2]
+            clauses.append(("extra", f"{kw('BLANK')}" + (f" {kw('WHEN')}" if n.level % 3 else "") + f" {kw(zero)}"))
         elif sp.extra == "sync" and usage and FAMILY.get(usage) == "COMP":
             clauses.append(("extra", kw("SYNC")))
     if sp.order == "usage-first":
@@ -244,6 +246,8 @@ def apply_kind(kind: str, sp: Spelling, rng, levels: list[int]) -> None:
         sp.extra = "just-last"
     elif kind == "blank-when-zero":
         sp.extra = "blank"
+    elif kind == "blank-when-zeros":
+        sp.extra = "blank-zeros"
     elif kind == "sync":
         sp.extra = "sync"
     elif kind == "88-levels":
@@ -263,12 +267,12 @@ def apply_kind(kind: str, sp: Spelling, rng, levels: list[int]) -> None:
 KINDS = ["seq-numbers", "ident-area", "comment-lines", "blank-lines", "eject-skip", "picture-word", "picture-is", "usage-word-omitted",
          "usage-is", "usage-synonym", "clause-order", "line-breaks", "several-entries-per-line", "extra-spacing", "tabs",
          "comma-separators", "semicolon-separators", "times-omitted", "on-omitted", "key-is-indexed-by", "level-renumbering",
-         "value-clause", "justified-right", "blank-when-zero", "sync", "88-levels", "expanded-repeat-counts"]
+         "value-clause", "justified-right", "justified-as-last-clause", "blank-when-zero", "sync", "88-levels", "expanded-repeat-counts"]
 KNOWN_KINDS = {
     "separator-after-picture": "respell:separator-after-picture",          # D26
     "indexed-by-without-key": "respell:indexed-by-without-key",            # D27
     "continuation-line": "respell:continuation-line",                      # D28
-    "justified-as-last-clause": "respell:justified-as-last-clause",        # D32
+    "blank-when-zeros": "respell:blank-when-zeros",                        # D42 (test-pinned)
     "indexed-by-before-picture": "respell:indexed-by-before-picture",      # D33
     "lowercase-keywords": "respell:lowercase-keywords",                    # D20
     "lowercase-picture": "respell:lowercase-picture",                      # D20
@@ -357,8 +361,9 @@ def explore(ck: Check, n_trees: int, n_compositions: int) -> None:
             sp = Spelling()
             for k in kinds:
                 apply_kind(k, sp, rng, levels)
-            if sp.indexed_by and sp.order == "occurs-first":
-                kinds = kinds + ["indexed-by-before-picture"]     # this composition IS that known shape
+            if sp.indexed_by and (sp.order == "occurs-first" or sp.extra == "value"):
+                # this composition IS that known shape: a clause (PICTURE, or VALUE with its literal) written after INDEXED BY
+                kinds = kinds + ["indexed-by-before-picture"]
             text, _ = render_spelled(root, sp)
             ck.case((base_text, tuple(kinds), text), feature="+".join(kinds) if len(kinds) == 1 else f"composition-of-{len(kinds)}")
             ck.oracle_evaluations += 1
@@ -434,15 +439,19 @@ def run(ck: Check) -> int:
                "TIMES/ON/KEY IS/INDEXED BY, level renumbering, VALUE/JUSTIFIED/BLANK WHEN ZERO/SYNC/88 levels, expanded repeat counts) plus "
                "the kinds with known findings; layout and decoded values compared with the house style; REPLACING lists of 1-3 pairs; "
                "distinct by (copybook, rewrite set, rendered text)")
-    ck.trusted_extra = ["the clause layer (CLAUSES regular expression) is not modelled in Lean: it is pinned and exercised metamorphically",
+    ck.trusted_extra = ["the clause layer is modelled at the level of words (Model/Clause.lean, theorems in Props/C12Clause.lean); the lexer that "
+                        "classifies words and the assumptions listed at the top of that file are validated by correspondence, the CLAUSES "
+                        "pattern itself is pinned",
                         "Python's str.strip/rstrip white space = ASCII white space on the generated texts"]
     ck.assumptions = ["copybook text is ASCII"]
-    ck.prove(["Stingray.Props.C12", "Stingray.Tie.C12"])
+    ck.prove(["Stingray.Props.C12", "Stingray.Props.C12Clause", "Stingray.Tie.C12"])
     if ck.tier == "quick":
         explore(ck, 12, 20)
+        clause_layer.explore(ck, 300, 1500, 2)
     else:
         explore(ck, 200, 60)
-    return ck.finish(search=lambda c: explore(c, 40, 40))
+        clause_layer.explore(ck, 5000, 20000, 3)
+    return ck.finish(search=lambda c: (explore(c, 40, 40), clause_layer.explore(c, 2000, 5000, 2)))
 
 
 def replay(ck: Check, data: dict[str, Any]) -> int:
